@@ -139,7 +139,13 @@ def patched():
     def is_integer(i):
         return isinstance(i, SymInt) or o_int(i)
 
+    def _array_from_buffer(self, buffer, offset, count):
+        if getattr(buffer, "_is_pbuf", False):
+            return [buffer.load_word(offset + 8 * k) for k in range(int(count))]
+        return o_afrom(self, buffer, offset, count)
+
     NS._to_buffer, NS._from_buffer, NS._array_to_buffer = _to_buffer, _from_buffer, _array_to_buffer
+    NS._array_from_buffer = _array_from_buffer
     saved = [(m, m.is_integer) for m in (xarray, xtypeutils, xstring) if hasattr(m, "is_integer")]
     for m, _ in saved:
         m.is_integer = is_integer
@@ -148,6 +154,7 @@ def patched():
         yield
     finally:
         NS._to_buffer, NS._from_buffer, NS._array_to_buffer = o_to, o_from, o_ato
+        NS._array_from_buffer = o_afrom
         for m, f in saved:
             m.is_integer = f
         xarray.np = o_np
@@ -567,6 +574,101 @@ def h_string(cfg):
 
 
 # --------------------------------------------------------------------------
+# P4: reference codecs for all slot / target offsets and all stored words
+NULL = -(2**63)
+
+
+class _Target:
+    """abstract reference target type: a view is (name, offset)"""
+
+    def __init__(self, name):
+        self.__name__ = name
+        self._size = 16
+
+    def _from_buffer(self, buffer, offset=0):
+        return _TargetView(self, buffer, offset)
+
+    def __call__(self, *a, **k):
+        raise symx.Abort()
+
+
+class _TargetView:
+    def __init__(self, cls, buffer, offset):
+        self._cls, self._buffer, self._offset = cls, buffer, offset
+        self.__class__ = type(cls.__name__, (_TargetView,), {})
+
+
+def h_ref(cfg):
+    pid, kind, mode = cfg
+    name = f"P4 {kind}[{mode}]"
+    e = Engine(name, timeout_ms=30000)
+    import xobjects.ref as xref
+
+    def body(e):
+        slot = e.sym("slot", 0, BIG)
+        b = PBuf()
+        A0, A1 = _Target("TA"), _Target("TB")
+        det = lambda m: {"slot": m.eval(slot.e, model_completion=True).as_long(), "w": m.eval(z3.Int("w"), model_completion=True).as_long() if mode == "decode" else None, "target": m.eval(z3.Int("target"), model_completion=True).as_long() if mode != "decode" else None, "kind": kind}
+        if kind == "ref":
+            r = xo.Ref(A0)
+            reader = lambda: r._from_buffer(b, slot)
+        else:
+            U = type("PU", (xo.UnionRef,), {"_reftypes": [A0, A1]})
+            reader = lambda: U._from_buffer(b, slot)
+        if mode == "decode":
+            w = e.sym("w", NULL, 2**63 - 1)
+            b.store_word(slot, w)
+            tid = None
+            if kind == "uref":
+                tid = e.sym("tid", -1, 1)
+                b.store_word(slot + 8, tid)
+                e.assume(z3.Implies(w.e != NULL, tid.e >= 0))
+            try:
+                got = reader()
+            except Exception as ex:  # noqa
+                e.fail(f"C08 decoding a stored reference raised {type(ex).__name__}", det)
+                e.reach()
+                return
+            if got is None:
+                e.prove(w.e == NULL, "C05 exactly one stored value (-2^63) means null: no other offset reads back as None", det)
+            else:
+                e.prove(w.e != NULL, "C05 the reserved value -2^63 reads back as None", det)
+                e.prove(T(got._offset) == slot.e + w.e, "C05 a reference is an offset relative to its own slot", det)
+                if kind == "uref":
+                    e.prove(z3.BoolVal(got._cls is A0) == (tid.e == 0), "C08 the member index selects the member type", det)
+        else:
+            # write then read: bind to an object living in the same buffer at an arbitrary offset (also the slot's own)
+            target = e.sym("target", 0, BIG)
+            cls = A0 if mode == "bind0" else A1
+            if kind == "ref" and mode == "bind1":
+                e.reach()
+                return
+            obj = _TargetView(cls, b, target)
+            try:
+                if kind == "ref":
+                    r._to_buffer(b, slot, obj)
+                else:
+                    U._to_buffer(b, slot, obj)
+                got = reader()
+            except Exception as ex:  # noqa
+                e.fail(f"C08 binding a reference to an object of the same buffer raised {type(ex).__name__}: {str(ex)[:60]}", det)
+                e.reach()
+                return
+            e.prove(z3.BoolVal(got is not None), "C08 a reference bound to a live object of its buffer reads back non-null, wherever the object lies relative to the slot", det)
+            if got is not None:
+                e.prove(T(got._offset) == target.e, "C08 a reference bound to an object of the same buffer denotes that very object", det)
+                e.prove(z3.BoolVal(got._cls is cls), "C08 it resolves to an object of the recorded member type", det)
+            e.prove(z3.BoolVal(len(b.payloads) == 0), "C08 binding to an existing object creates nothing", det)
+        e.reach()
+
+    with patched():
+        e.explore(body)
+    r_ = e.result()
+    r_["cfg"] = list(cfg)
+    return r_
+
+
+# --------------------------------------------------------------------------
 def jobs(pid, tr):
     out = []
     if pid in ("C03", "C05", "C06", "C10", "C11"):
@@ -594,10 +696,14 @@ def jobs(pid, tr):
         out.append(("string", (pid, "create")))
     if pid in ("C10", "C11", "C03"):
         out.append(("string", (pid, "rewrite")))
+    if pid in ("C05", "C08"):
+        for kind in ("ref", "uref"):
+            for mode in ("decode", "bind0", "bind1"):
+                out.append(("ref", (pid, kind, mode)))
     return out
 
 
-HARNESS = {"array": h_array, "struct": h_struct, "string": h_string}
+HARNESS = {"array": h_array, "struct": h_struct, "string": h_string, "ref": h_ref}
 
 
 def dispatch(job):
@@ -775,8 +881,54 @@ def replay(kind, cfg, detail):
                     bad.append(f"part {path} at offset {off - parent}: not on a slot boundary")
             if o._size % 8:
                 bad.append(f"struct size {o._size} is not a multiple of 8")
+            vw = S._from_buffer(o._buffer, o._offset)
+            for k in range(len(pat)):
+                if o._get_offset(f"f{k}") != vw._get_offset(f"f{k}"):
+                    bad.append(f"field f{k}: constructor handle places it at {o._get_offset(f'f{k}')}, a rebuilt view at {vw._get_offset(f'f{k}')}")
+            if int(vw._size) != int(o._size):
+                bad.append(f"view size {vw._size} != handle size {o._size}")
         except Exception as ex:
             bad.append(f"layout decoder failed: {type(ex).__name__}: {ex}")
+    elif kind == "ref":
+        pid, rk, mode = cfg
+        # a target at the very offset of the reference slot exists for zero-sized objects: an empty struct
+        # allocated immediately before a holder whose first field is the reference
+        class E(xo.Struct):
+            pass
+
+        buf = xo.ContextCpu().new_buffer(256)
+        if rk == "ref":
+            class Hd(xo.Struct):
+                r = xo.Ref(E)
+                k = xo.Int64
+        else:
+            class UU(xo.UnionRef):
+                _reftypes = [E]
+
+            class Hd(xo.Struct):
+                r = UU
+                k = xo.Int64
+        w = (detail or {}).get("w")
+        if mode == "decode" and w not in (None, 0):
+            # a stored word w other than the reserved null must resolve to slot + w
+            h = Hd(k=5, _buffer=buf)
+            xo.Int64._to_buffer(buf, h._offset, w)
+            if rk == "uref":
+                xo.Int64._to_buffer(buf, h._offset + 8, 0)
+            got = h.r
+            if (got is None) != (w == -(2**63)):
+                bad.append(f"stored word {w} reads back as {'None' if got is None else 'non-null'}")
+        else:
+            e0 = E(_buffer=buf)
+            h = Hd(k=5, _buffer=buf)
+            if e0._offset == h._offset:
+                h.r = e0
+                if h.r is None:
+                    bad.append(f"a {rk} bound to a live object at the slot's own offset ({h._offset}) reads back as None")
+                if rk == "uref" and int(xo.Int64._from_buffer(buf, h._offset + 8)) != 0:
+                    bad.append("member index not recorded")
+            else:
+                print("could not place a target at the slot's own offset"); return 2
     for m in bad:
         print("VIOLATED:", m)
     if not bad:
